@@ -538,6 +538,10 @@ def _iter(it):
         if it[1] == "Iterator::enumerate" and len(it[2]) == 1:
             n, e = _iter(it[2][0])
             return n, ("list", (("idx", it[2][0]), e))
+        if it[1].endswith(("Map::keys", "Map::into_keys", "Map::values", "Map::into_values")) and len(it[2]) == 1:
+            # the keys / values of a map are the first / second components of its entries
+            n, e = _iter(it[2][0])
+            return n, sym.proj_reduce(e, (("tuple", "0" if "keys" in it[1] else "1"),))
     return [it], ("each", it)
 
 
